@@ -652,6 +652,54 @@ private:
     }
   }
 
+  // v is about to be (re-)marked as unchanged. If v was possibly
+  // modified then any recorded constraint over v predates that
+  // modification: forget it so that it cannot be considered valid
+  // again.
+  template<class BoolToCstEnv>
+  void forget_constraints_on(BoolToCstEnv &env, const variable_t &v) {
+    using cst_set_t = typename BoolToCstEnv::mapped_type;
+    auto mentions = [&v](const typename cst_set_t::element_t &cst) {
+      for (auto const &w : cst.variables()) {
+	if (w == v) {
+	  return true;
+	}
+      }
+      return false;
+    };
+    transform_if<BoolToCstEnv>(env,
+		 [&mentions](const cst_set_t &s) {
+		   if (s.is_top() || s.is_bottom()) {
+		     return false;
+		   }
+		   for (auto it = s.begin(), et = s.end(); it != et; ++it) {
+		     if (mentions(*it)) {
+		       return true;
+		     }
+		   }
+		   return false;
+		 },
+		 [&mentions](cst_set_t &s) {
+		   std::vector<typename cst_set_t::element_t> stale;
+		   for (auto it = s.begin(), et = s.end(); it != et; ++it) {
+		     if (mentions(*it)) {
+		       stale.push_back(*it);
+		     }
+		   }
+		   for (auto const &cst : stale) {
+		     s -= cst;
+		   }
+		 });
+  }
+
+  void mark_as_unchanged(const variable_t &v) {
+    if (!m_unchanged_vars.at(v)) {
+      forget_constraints_on(m_bool_to_lincsts, v);
+      forget_constraints_on(m_bool_to_refcsts, v);
+    }
+    m_unchanged_vars += v;
+  }
+
   
   template<class BoolToCstEnv>
   void propagate_assign_bool_var(BoolToCstEnv &env,
@@ -872,12 +920,12 @@ private:
 	m_product.first().set_bool(x, boolean_value::top());
       }
       
-      m_bool_to_lincsts.set(x, lincst_set_t(cst));
       // We assume all variables in cst are unchanged unless the
       // opposite is proven
       for (auto const &v : cst.variables()) {
-	m_unchanged_vars += v;
+	mark_as_unchanged(v);
       }
+      m_bool_to_lincsts.set(x, lincst_set_t(cst));
     }
     m_bool_to_bools -= x;
   }
@@ -912,12 +960,12 @@ private:
 	  m_product.first().set_bool(x, boolean_value::top());
 	}
       }
-      m_bool_to_refcsts.set(x, refcst_set_t(cst));
       // We assume all variables in cst are unchanged unless the
       // opposite is proven
       for (auto const &v : cst.variables()) {
-	m_unchanged_vars += v;
+	mark_as_unchanged(v);
       }
+      m_bool_to_refcsts.set(x, refcst_set_t(cst));
     }
     m_bool_to_bools -= x;
 
